@@ -26,15 +26,18 @@ from harness import replay as rp
 from harness.armi_env import armi_ready
 
 MODDIR = os.path.join(common.SPEC, "inventory")
-NAMES = {"a": "U235", "b": "U238", "c": "NA23", "d": "U236"}  # d: an isotope of the element that does not occur naturally
+NAMES = {"a": "U235", "b": "U238", "c": "NA23", "d": "U236",  # d: an isotope of the element that does not occur naturally
+         "e": "LFP35", "x": "XE135"}  # e: a lumped fission product (trees WithLump), x: one of its constituents (never in the state)
+ABSENT = ["PU239", "AM241"]  # nuclides nobody holds (selections that must select nothing)
 ORDER = ["a", "b", "c", "d"]
-SELS = {"a": "U235", "b": "U238", "c": "NA23", "E": "U", "Lac": ["U235", "NA23"], "LEc": ["U", "NA23"], "all": None}
+SELS = {"a": "U235", "b": "U238", "c": "NA23", "E": "U", "Lac": ["U235", "NA23"], "LEc": ["U", "NA23"], "all": None,
+        "none": [], "absent": ABSENT[0], "absentList": ABSENT}
 # a handful of double operations per query: rtol 1e-9; absolute floor for differences of O(1) numbers (removeMass) and for
 # TRACE_NUMBER_DENSITY = 1e-50 that clearNumberDensities writes where the model says 0
 RTOL, ATOL = 1e-9, 1e-12
 WEIGHT_FREE_ACTIONS = {"SetN", "UpdateN", "SetNs", "Scale", "Clear", "SetHeight", "AdjustDensity"}
 LSRC = 600  # cfg constant LSrc: mass-fraction edits start from states with a small common denominator
-WEIGHT_FREE_OBS = ("vol", "nucs", "nd", "atoms")
+WEIGHT_FREE_OBS = ("vol", "nucs", "nd", "atoms", "exp")
 LMAX, VMAX = 20000, 100  # the model's bound on magnitudes (cfg constants LMax / VMax); the trace driver stays inside it
 _SELFTEST = False
 _TLC_CACHE = {}
@@ -141,6 +144,8 @@ class InvAdapter:
         # narrow (quick tier): after an edit at x every query is compared at x, below x and above x; elsewhere only the components'
         # own densities and keys (the rest of those nodes is compared on the edges that edit them or their relatives)
         self.narrow = narrow
+        self.order = list(tree.get("nucs") or self.order)  # the nuclides of this tree's model (five with a lumped fission product)
+        self.lump = bool(tree.get("withLump"))
         self.worlds = {}
         self.count = 0
         self.K, self.CM2 = units()
@@ -173,7 +178,7 @@ class InvAdapter:
         self.count += 1
         w = self.world(fam)
         N = fl(root["N"])
-        H = [[NAMES[ORDER[i]] for i in range(len(ORDER)) if hb[i]] for hb in root["H"]]
+        H = [[NAMES[self.order[i]] for i in range(len(self.order)) if hb[i]] for hb in root["H"]]
         for i, b in enumerate(w.blocks):  # geometry first (a height change clears the block's caches)
             h = float(root["hgt"][i]) if "hgt" in root else float(self.tree["height"][str(b)])
             if w.node[b].getHeight() != h:
@@ -190,12 +195,13 @@ class InvAdapter:
         w.last_x = a.get("x")
         K = self.K
         try:
+            m = a.get("m") if isinstance(a.get("m"), dict) else {}  # (TLC prints the empty map as an empty array)
             if n == "SetN":
                 o.setNumberDensity(NAMES[a["nuc"]], fl(a["v"]))
             elif n == "UpdateN":
-                o.updateNumberDensities({NAMES[k]: fl(v) for k, v in a["m"].items()})
+                o.updateNumberDensities({NAMES[k]: fl(v) for k, v in m.items()})
             elif n == "SetNs":
-                o.setNumberDensities({NAMES[k]: fl(v) for k, v in a["m"].items()})
+                o.setNumberDensities({NAMES[k]: fl(v) for k, v in m.items()})
             elif n == "Scale":
                 try:
                     o.changeNDensByFactor(fl(a["f"]))
@@ -217,16 +223,16 @@ class InvAdapter:
             elif n == "SetMassFracs":
                 o.setMassFracs({NAMES[k]: fl(v) for k, v in a["m"].items()})
             elif n == "AddMasses":  # dict order = the model's entry order (a, b, c)
-                o.addMasses({NAMES[k]: fl(a["m"][k]) / K for k in ORDER if k in a["m"]})
+                o.addMasses({NAMES[k]: fl(a["m"][k]) / K for k in self.order if k in a["m"]})
             elif n == "SetMasses":
-                o.setMasses({NAMES[k]: fl(a["m"][k]) / K for k in ORDER if k in a["m"]})
+                o.setMasses({NAMES[k]: fl(a["m"][k]) / K for k in self.order if k in a["m"]})
             elif n == "SetHeight":
                 if a["cons"]:
-                    o.setHeight(float(a["h"]), conserveMass=True, adjustList=[NAMES[k] for k, on in zip(ORDER, a["adj"]) if on])
+                    o.setHeight(float(a["h"]), conserveMass=True, adjustList=[NAMES[k] for k, on in zip(self.order, a["adj"]) if on])
                 else:
                     o.setHeight(float(a["h"]))
             elif n == "AdjustDensity":
-                o.adjustDensity(fl(a["f"]), [NAMES[k] for k, on in zip(ORDER, a["adj"]) if on])
+                o.adjustDensity(fl(a["f"]), [NAMES[k] for k, on in zip(self.order, a["adj"]) if on])
             elif n == "AdjustEnrich":
                 o.adjustMassEnrichment(fl(a["f"]))
             elif n == "AdjustMF":
@@ -249,7 +255,7 @@ class InvAdapter:
 
     def node_obs(self, o):
         K = self.K
-        names = [NAMES[k] for k in ORDER]
+        names = [NAMES[k] for k in self.order]
         nd = [float(o.getNumberDensity(n)) for n in names]
         alt = [float(v) for v in o.getNuclideNumberDensities(names)]
         dct = o.getNumberDensities()
@@ -257,16 +263,23 @@ class InvAdapter:
         if rp.diff(nd, alt, rtol=RTOL, atol=ATOL) or rp.diff(nd, alt2, rtol=RTOL, atol=ATOL):
             nd = {"inconsistent": {"getNumberDensity": nd, "getNuclideNumberDensities": alt, "getNumberDensities": alt2}}
         else:
-            nd = dict(zip(ORDER, nd))
+            nd = dict(zip(self.order, nd))
         q = {"vol": float(o.getVolume()),
              "nucs": [n in o.getNuclides() for n in names],
              "nd": nd,
-             "atoms": {k: float(o.getNumberOfAtoms(NAMES[k])) * self.CM2 for k in ORDER}}
+             "atoms": {k: float(o.getNumberOfAtoms(NAMES[k])) * self.CM2 for k in self.order}}
+        if self.lump:
+            ex = o.getNumberDensities(expandFissionProducts=True)
+            q["exp"] = {k: float(ex.get(NAMES[k], 0.0)) for k in [k for k in self.order if k != "e"] + ["x"]}
+            if NAMES["e"] in ex:
+                q["exp"]["lump still listed"] = float(ex[NAMES["e"]])
         if self.weight_free:
             return q
-        q["mass"] = {s: float(o.getMass(spec) if spec is not None else o.getMass()) * K for s, spec in SELS.items()}
+        q["mass"] = {s: float(o.getMass(list(spec) if isinstance(spec, list) else spec) if spec is not None else o.getMass()) * K
+                     for s, spec in SELS.items()}
+        q["hm"] = float(o.getHMMass()) * K
         ms = o.getMasses()
-        q["masses"] = {k: float(ms.get(NAMES[k], 0.0)) * K for k in ORDER}
+        q["masses"] = {k: float(ms.get(NAMES[k], 0.0)) * K for k in self.order}
         if getattr(o, "p", None) is not None and "numberDensities" in o.p and not any(o.p.numberDensities.values()):
             # a component whose composition is all-zero: Component.density() defers to the material -- outside the property (see the
             # header of Inventory.tla), never compared; the deferral itself is exercised by empty_density_probe()
@@ -274,8 +287,8 @@ class InvAdapter:
         else:
             q["dens"] = float(o.density()) * K
         mf = o.getMassFracs()
-        q["mf"] = {k: float(mf.get(NAMES[k], 0.0)) for k in ORDER}
-        one = {k: float(o.getMassFrac(NAMES[k])) for k in ORDER}
+        q["mf"] = {k: float(mf.get(NAMES[k], 0.0)) for k in self.order}
+        one = {k: float(o.getMassFrac(NAMES[k])) for k in self.order}
         if rp.diff(q["mf"], one, rtol=RTOL, atol=ATOL):
             q["mf"] = {"inconsistent": {"getMassFracs": q["mf"], "getMassFrac": one}}
         if q["dens"] != "material" and "numberDensities" in o.p:
@@ -288,7 +301,7 @@ class InvAdapter:
         if self.kind[x] != "leaf":
             return {}
         d = o.p.numberDensities
-        return {"nucs": [NAMES[k] in d for k in ORDER], "nd": {k: float(d.get(NAMES[k], 0.0)) for k in ORDER}}
+        return {"nucs": [NAMES[k] in d for k in self.order], "nd": {k: float(d.get(NAMES[k], 0.0)) for k in self.order}}
 
     def project(self, w):
         near = self.near.get(w.last_x) if self.narrow and w.last_x is not None else None
@@ -311,8 +324,10 @@ class InvAdapter:
                 del o["mf"]
             if o.get("enr") == -1.0:
                 del o["enr"]
+            if not o.get("exp"):
+                o.pop("exp", None)
             if self.weight_free:
-                o = {k: o[k] for k in WEIGHT_FREE_OBS}
+                o = {k: o[k] for k in WEIGHT_FREE_OBS if k in o}
             q.append(o)
         return {"err": err, "q": q}
 
@@ -350,9 +365,11 @@ def key_of(d, ad, prefix="replay"):
 # ------------------------------------------------------------------------------------------------------------
 # densityTools: the pure conversion functions, called once per emitted composition
 # ------------------------------------------------------------------------------------------------------------
-def density_tools_cases(states, K):
+def density_tools_cases(states, K, order=None):
     """states: the specification's observations; every expected value is the specification's."""
     from armi.utils import densityTools as dt
+
+    order = order or ORDER
 
     n = 0
     bad = []
@@ -367,20 +384,20 @@ def density_tools_cases(states, K):
     seen = set()
     for obs in states:
         for o in fl(obs):
-            case = (tuple(o["nd"][k] for k in ORDER), o["evol"])
+            case = (tuple(o["nd"][k] for k in order), o["evol"])
             if case in seen:  # the functions are pure: one call per distinct (composition, volume)
                 continue
             seen.add(case)
-            v = {NAMES[k]: o["nd"][k] for k in ORDER}
+            v = {NAMES[k]: o["nd"][k] for k in order}
             if o["dens"] != -1.0:
                 chk("calculateMassDensity", o["dens"], float(dt.calculateMassDensity(dict(v))) * K, v)
             if all(x != -1.0 for x in o["mf"].values()):
                 mf = dt.getMassFractions(dict(v))
-                chk("getMassFractions", o["mf"], {k: float(mf[NAMES[k]]) for k in ORDER}, v)
-                back = dt.getNDensFromMasses(o["dens"] / K, {NAMES[k]: o["mf"][k] for k in ORDER})
-                chk("getNDensFromMasses", o["nd"], {k: float(back[NAMES[k]]) for k in ORDER}, {"rho": o["dens"], "mf": o["mf"]})
+                chk("getMassFractions", o["mf"], {k: float(mf[NAMES[k]]) for k in order}, v)
+                back = dt.getNDensFromMasses(o["dens"] / K, {NAMES[k]: o["mf"][k] for k in order})
+                chk("getNDensFromMasses", o["nd"], {k: float(back[NAMES[k]]) for k in order}, {"rho": o["dens"], "mf": o["mf"]})
                 chk("massFractionsSumToOne", 1.0, float(sum(mf.values())), v)
-            for k in ORDER:
+            for k in order:
                 chk("getMassInGrams", o["masses"][k], float(dt.getMassInGrams(NAMES[k], o["evol"], o["nd"][k])) * K,
                     {"nuc": k, "vol": o["evol"], "nd": o["nd"][k]})
                 chk("calculateNumberDensity", o["nd"][k], float(dt.calculateNumberDensity(NAMES[k], o["masses"][k] / K, o["evol"])),
@@ -747,7 +764,7 @@ def _replay_config(rep, res, cfg, env, families, label, max_edges, seed, weight_
         for d in divs:
             out.append((key_of(d, ad), d, ad, False))
         if dt:
-            nd, bad = density_tools_cases(obs.values(), K)
+            nd, bad = density_tools_cases(obs.values(), K, ad.order)
             rep.add_replay(label + ":densityTools", nd, nd,
                            "densityTools.{calculateMassDensity,getMassFractions,getNDensFromMasses,getMassInGrams,calculateNumberDensity} "
                            "called once per distinct emitted (composition, volume); expected values are the specification's")
@@ -805,11 +822,12 @@ def run(rep, tier, seed):
     suffix = "_thorough" if thorough else ""
     mc = ["Inventory_core_mc%s.cfg" % suffix] + (["Inventory_blk_mc_thorough.cfg", "Inventory_edge_mc_thorough.cfg", "Inventory_core_geom_mc.cfg",
                                                   "Inventory_core_inv_thorough.cfg", "Inventory_edge_inv_thorough.cfg",
-                                                  "Inventory_gap_inv_thorough.cfg"] if thorough else [])
+                                                  "Inventory_gap_inv_thorough.cfg", "Inventory_lfp_inv_thorough.cfg"] if thorough else [])
     emit = ["Inventory_core_acct.cfg", "Inventory_blk_acct.cfg", "Inventory_edge_acct.cfg", "Inventory_gap_acct.cfg",
+            "Inventory_cart_acct.cfg", "Inventory_lfp_acct.cfg",
             "Inventory_core_geom_emit%s.cfg" % suffix] + (
         ["Inventory_blk_emit_thorough.cfg", "Inventory_core_emit_thorough.cfg", "Inventory_gap_emit_thorough.cfg"] if thorough else [])
-    pool = concurrent.futures.ThreadPoolExecutor(max_workers=8 if not thorough else 5)
+    pool = concurrent.futures.ThreadPoolExecutor(max_workers=8 if not thorough else 6)
     sanys = [pool.submit(tlc.sany, m, MODDIR) for m in ("Inventory_mc", "Inventory_trace", "AreaCache", "Placement")]
     env0 = dict(DESIGNS[0])
     jobs = [("AreaCache", "AreaCache_emit.cfg", {"C02_AREAKEY": "keyed"}, dict(workers=1, coverage=False, extra=("-continue",))),
@@ -817,7 +835,8 @@ def run(rep, tier, seed):
     jobs += [("Inventory_mc", c, env0, dict(workers=1, coverage=False)) for c in emit]
     if not _SELFTEST:
         jobs += [("Inventory_mc", c, env0, dict(want_prints=False, coverage=False)) for c in mc]
-        jobs += [("Inventory_mc", c, dict(env0, C02_MAXLEVEL="2"), dict(workers=1, coverage=False)) for c in mc]
+        jobs += [("Inventory_mc", c, dict(env0, C02_MAXLEVEL="2"), dict(workers=1, coverage=False)) for c in mc
+                 if not ("_inv_" in c and "gap" not in c and "lfp" not in c)]
         jobs += [("Inventory_mc", "Inventory_clauses.cfg", env0, dict(workers=1, want_prints=False, coverage=False, extra=("-continue",)))]
     prefetch(pool, jobs)
     armi_ready()  # ~3 s of imports while the JVMs run
@@ -847,22 +866,31 @@ def run(rep, tier, seed):
     seen = set()
     for cfg, label in (("Inventory_blk_acct.cfg", "block-tree"), ("Inventory_core_acct.cfg", "third-core-tree"),
                        ("Inventory_edge_acct.cfg", "edge-assemblies-tree")):
-        names, _ = replay_config(rep, cfg, env, fams, label, seed=seed, narrow=not thorough)
+        names, _ = replay_config(rep, cfg, env, fams, label, seed=seed, narrow=not (thorough and label == "block-tree"),
+                                 weight_free_too=(thorough or label != "edge-assemblies-tree"),
+                                 max_edges=(None if thorough or label == "block-tree" else 600))
         seen |= names
     # a block whose Void gap has a (legal) negative hot area: read-back and additivity with a negative child volume
-    names, _ = replay_config(rep, "Inventory_gap_acct.cfg", env, ["gap"], "closed-gap-block", seed=seed, narrow=not thorough)
+    names, _ = replay_config(rep, "Inventory_gap_acct.cfg", env, ["gap"], "closed-gap-block", seed=seed, narrow=False)
+    seen |= names
+    # quarter-core Cartesian model through the centre assembly: symmetry factors 4 / 2 / 1, interior assembly with a bottom block
+    names, _ = replay_config(rep, "Inventory_cart_acct.cfg", env, ["circle", "mixed", "hot"], "cartesian-quarter-core", seed=seed, narrow=True,
+                             weight_free_too=thorough, max_edges=(None if thorough else 500))
+    seen |= names
+    # a block with a real LFP collection: getNumberDensities(expandFissionProducts=True) at every level
+    names, _ = replay_config(rep, "Inventory_lfp_acct.cfg", env, ["circle", "hot"], "lumped-fission-products", seed=seed, narrow=False, weight_free_too=thorough)
     seen |= names
     # histories three edits deep around a height change (edit above the block ; setHeight ; edit above it again): what a value
     # cached above the block across the geometry change would break
     names, _ = replay_config(rep, "Inventory_core_geom_emit%s.cfg" % ("_thorough" if thorough else ""), env, fams, "height-change-histories",
-                             seed=seed, dt=False, max_edges=(5000 if thorough else 800), narrow=True)
+                             seed=seed, dt=False, max_edges=(5000 if thorough else 600), narrow=True)
     seen |= names
     if thorough:
         for fam in fams:  # every family on every edge of the two deep emissions
             replay_config(rep, "Inventory_blk_emit_thorough.cfg", env, [fam], "block-tree-2-edits:" + fam, seed=seed, dt=(fam == "circle"),
                           weight_free_too=(fam == "hot"), max_edges=(6000 if fam == "circle" else 2500))
-        replay_config(rep, "Inventory_core_emit_thorough.cfg", env, fams, "third-core-tree-2-edits", seed=seed, dt=False, max_edges=5000)
-        replay_config(rep, "Inventory_gap_emit_thorough.cfg", env, ["gap"], "closed-gap-block-2-edits", seed=seed, dt=False, max_edges=4000)
+        replay_config(rep, "Inventory_core_emit_thorough.cfg", env, fams, "third-core-tree-2-edits", seed=seed, dt=False, max_edges=4000, narrow=True)
+        replay_config(rep, "Inventory_gap_emit_thorough.cfg", env, ["gap"], "closed-gap-block-2-edits", seed=seed, dt=False, max_edges=3000)
     need = {"SetN", "SetN!", "UpdateN", "SetNs", "Scale", "Clear", "AddMass", "AddMass!", "RemoveMass", "SetMass", "SetMass!",
             "SetMassFracs", "SetMassFracs!", "AddMasses", "AddMasses!", "SetMasses", "SetMasses!", "SetHeight", "SetHeight!",
             "AdjustDensity", "AdjustEnrich", "AdjustMF", "AdjustMF!"}
@@ -881,6 +909,8 @@ def run(rep, tier, seed):
             if res.violation:
                 rep.violation("tlc:" + res.violation["name"], "TLC: %s violated in Inventory (%s)" % (res.violation["name"], cfg),
                               {"direction": "tlc", "cfg": cfg, "trace": res.violation["trace"][:20000]})
+            if "_inv_" in cfg and "gap" not in cfg and "lfp" not in cfg:
+                continue  # one edit deep: the same first level as the emitted *_acct configuration, whose actions are counted by the replay
             cov = run_tlc("Inventory_mc", cfg, dict(env, C02_MAXLEVEL="2"), workers=1, coverage=False)
             rep.add_tlc("action counts (one edit deep, one worker):" + cfg, cov)
             counts = [p["counts"] for p in cov.prints if isinstance(p, dict) and "counts" in p]
@@ -1109,7 +1139,7 @@ def random_action(ad, w, rng, K, cleared, tame=True):
     if kind == "SetN":
         return {"n": kind, "x": x, "nuc": nuc, "v": rat(rng.choice(VALS))}
     if kind in ("UpdateN", "SetNs"):
-        ks = rng.sample(ORDER, rng.randrange(1, 4))
+        ks = rng.sample(ORDER, rng.randrange(0 if kind == "SetNs" else 1, 4))  # setNumberDensities({}) voids the object
         return {"n": kind, "x": x, "m": {k: rat(rng.choice(VALS)) for k in sorted(ks)}}
     if kind == "Scale":
         return {"n": kind, "x": x, "f": rat(rng.choice(FACS))}
@@ -1398,8 +1428,42 @@ def selftest():
         for c in self.getChildren(deep=True):
             c.changeNDensByFactor(factor)
 
+    def getmass_fast_total(self, nuclideNames=None):
+        if not nuclideNames:  # seeded: an empty selection is taken for "no selection"
+            return sum(c.getMass() for c in self)
+        return sum(c.getMass(nuclideNames=nuclideNames) for c in self)
+
+    def cart_sym_any_zero(self):
+        if self.core is not None:
+            indices = self.spatialLocator.getCompleteIndices()
+            if self.core.symmetry.isThroughCenterAssembly:
+                if indices[0] == 0 and indices[1] == 0:
+                    return 4.0
+                elif 0 in indices:  # seeded: also the axial index
+                    return 2.0
+        return 1.0
+
+    def expand_lfps_merge(self, numberDensities):
+        coll = self.getLumpedFissionProductCollection()
+        if coll:
+            numberDensities = {**numberDensities, **coll.getNumberDensities(self)}  # seeded: overwritten instead of summed
+            for name in coll:
+                numberDensities.pop(name, None)
+        return numberDensities
+
+    orig_comp_update = C.updateNumberDensities
+
+    def comp_update_skips_empty(self, numberDensities, wipe=False):
+        if not numberDensities:  # seeded: "nothing to update" -- but setNumberDensities({}) relies on the wipe
+            return
+        return orig_comp_update(self, numberDensities, wipe=wipe)
+
     P = patched
     mutants = [
+        ("round 3 seed 1: Composite.getMass takes an empty selection for the total", lambda: P(composites.Composite, "getMass", getmass_fast_total)),
+        ("round 3 seed 3: CartesianBlock.getSymmetryFactor also looks at the axial index", lambda: P(blocks.CartesianBlock, "getSymmetryFactor", cart_sym_any_zero)),
+        ("round 3 seed 4: _expandLFPs overwrites explicit densities with the lumped share", lambda: P(A, "_expandLFPs", expand_lfps_merge)),
+        ("round 3 seed 5: Component.updateNumberDensities returns early on an empty vector", lambda: P(C, "updateNumberDensities", comp_update_skips_empty)),
         ("round 2 seed 1: removeEdgeAssemblies clears the caches of the removed assemblies", lambda: P(gc.EdgeAssemblyChanger, "removeEdgeAssemblies", remove_edges_clears_wrong)),
         ("round 2 seed 2: getVolumeFractions clips negative child volumes", lambda: P(A, "getVolumeFractions", volfracs_clip_negative)),
         ("round 2 seed 3: adjustMassEnrichment trades against natural isotopes only", lambda: P(C, "adjustMassEnrichment", enrich_natural_only)),
